@@ -48,6 +48,16 @@ class Acc(object):
             yield (self.tag, "cmp", i, list(self.b))
 
 
+class AccOdd(Acc):
+    """some of its results are None or false values"""
+    ODD = [None, 0, "", False, ()]
+
+    def compute(self):
+        self.log.append((self.tag, "compute"))
+        for i in range(self.nres):
+            yield self.ODD[(i + self.tag) % len(self.ODD)] if i % 2 == 0 else (self.tag, "cmp", i, list(self.b))
+
+
 class StopAt(object):
     def __init__(self, k):
         self.k, self.i = k, 0
@@ -80,6 +90,8 @@ def mk_branch(spec, tag, log):
         return Source(gen)
     if k == "fc":
         return Acc(tag, spec[1], log)
+    if k == "fc_odd":
+        return AccOdd(tag, spec[1], log)
     if k == "fc_t":
         return (StopAt(spec[1]), Pre(), Acc(tag, spec[2], log), Post())
     if k == "fr":
@@ -111,7 +123,7 @@ def mk_branch(spec, tag, log):
 
 
 def kind_of(spec):
-    return {"source": "source", "fc": "fc", "fc_t": "fc", "fr": "fr", "fr_t": "fr"}.get(spec[0], "seq")
+    return {"source": "source", "fc": "fc", "fc_odd": "fc", "fc_t": "fc", "fr": "fr", "fr_t": "fr"}.get(spec[0], "seq")
 
 
 class RefBranch(object):
@@ -140,8 +152,10 @@ class RefBranch(object):
         return True
 
     def compute(self):
-        nres = self.spec[1] if self.spec[0] == "fc" else self.spec[2]
+        nres = self.spec[1] if self.spec[0] in ("fc", "fc_odd") else self.spec[2]
         res = [(self.tag, "cmp", i, list(self.buf)) for i in range(nres)]
+        if self.spec[0] == "fc_odd":
+            res = [AccOdd.ODD[(i + self.tag) % len(AccOdd.ODD)] if i % 2 == 0 else r for i, r in enumerate(res)]
         if self.spec[0] == "fc_t":
             res = [("post", r) for r in res]
         return res
@@ -166,10 +180,13 @@ class RefBranch(object):
         raise AssertionError(k)
 
 
-def model(specs, bufsize, flow):
+def model(specs, bufsize, flow, refs=None):
+    """refs: the reference branches of an earlier run of the same Split (their state continues)"""
     if not specs:
         return list(flow), {}
-    refs = [RefBranch(s, i) for i, s in enumerate(specs)]
+    if refs is None:
+        refs = [RefBranch(s, i) for i, s in enumerate(specs)]
+    model.last_refs = refs
     active = list(range(len(specs)))
     out = []
     calls = dict((i, 0) for i in range(len(specs)))   # finalisations per branch
@@ -229,6 +246,7 @@ def model(specs, bufsize, flow):
 spec_strat = st.one_of(
     st.builds(lambda n: ["source", n], st.integers(0, 2)),
     st.builds(lambda n: ["fc", n], st.integers(0, 2)),
+    st.builds(lambda n: ["fc_odd", n], st.integers(1, 3)),
     st.builds(lambda k, n: ["fc_t", k, n], st.one_of(st.integers(0, 10), st.just(99)), st.integers(1, 2)),
     st.just(["fr"]),
     st.builds(lambda k: ["fr_t", k], st.one_of(st.integers(0, 10), st.just(99))),
@@ -243,7 +261,8 @@ def run_case(draw):
     n = draw(st.integers(0, 10))
     bufsize = draw(st.one_of(st.integers(1, 4), st.sampled_from([n + 1, 1000, None])))
     return {"specs": specs, "n": n, "bufsize": bufsize, "copy_buf": draw(st.booleans()),
-            "flow_as": draw(st.sampled_from(["iter", "list"]))}
+            "flow_as": draw(st.sampled_from(["iter", "list"])),
+            "again": draw(st.sampled_from([None, None, 0, 2, 5]))}
 
 
 def judge_run(case):
@@ -280,8 +299,17 @@ def judge_run(case):
             c = log.count((i, "run"))
             if c != calls[i]:
                 raise Violation("sequence-branch-run-count", "branch %d: run called %d times, expected %d; %s" % (i, c, calls[i], short(case)))
-    if not specs:
-        pass
+    # the same Split object run again: every branch takes part again (a Source is called again,
+    # a branch that stopped is filled again), the accumulators continue from their state
+    if case.get("again") is not None:
+        refs = model.last_refs if specs else None
+        flow2 = list(range(100, 100 + case["again"]))
+        got2 = list(sp.run(iter(flow2)))
+        exp2, _ = model(specs, bufsize, flow2, refs)
+        if got2 != exp2:
+            raise Violation("second-run-of-the-same-split-differs",
+                            "Split(%s, bufsize=%r) run on range(%d) and then on %s:\n second run gives %s\n expected %s" % (
+                                specs, bufsize, n, flow2, short(got2, 600), short(exp2, 600)))
     kinds = set(kind_of(s) for s in specs)
     nblocks = (n + bufsize - 1) // bufsize if bufsize else (1 if n else 0)
     stop_late = any(s[0] in ("fc_t", "fr_t") and bufsize and bufsize <= s[1] < n for s in specs)
@@ -297,6 +325,7 @@ def common_case(draw):
     typ = draw(st.sampled_from(["fc", "fr", "source", "mixed", "zip_fc", "zip_fr"]))
     if typ in ("fc", "zip_fc"):
         specs = draw(st.lists(st.one_of(st.builds(lambda n: ["fc", n], st.integers(0, 3)),
+                                        st.builds(lambda n: ["fc_odd", n], st.integers(1, 4)),
                                         st.builds(lambda n: ["fc_t", 99, n], st.integers(1, 3))),
                               min_size=1, max_size=3))
     elif typ in ("fr", "zip_fr"):
@@ -376,7 +405,7 @@ def judge_common(case):
     m = min(len(p) for p in per)
     exp = [tuple(p[i] for p in per) for i in range(m)]
     got_plain = [tuple(g) for g in got]
-    if got_plain != exp:
+    if repr(got_plain) != repr(exp):
         raise Violation("zip-differs-from-tuples-of-ith-results",
                         "Zip(%s): %s expected %s" % (specs, short(got, 500), short(exp, 500)))
     if fields:
